@@ -73,8 +73,9 @@ def run(ctx):
     seq = behaviours(ctx, SPEC, "MC_AuthSession", "Beh_AuthSession.cfg")
     conc = behaviours(ctx, SPEC, "MC_AuthSession", "Beh_AuthSession_conc.cfg")
     conc += behaviours(ctx, SPEC, "MC_AuthSession", "Beh_AuthSession_conc3.cfg", timeout=1200)
-    sims = behaviours(ctx, SPEC, "MC_AuthSession", "Sim_AuthSession.cfg", num=300 if quick else 4000, depth=9)
-    mixed = [] if quick else behaviours(ctx, SPEC, "MC_AuthSession", "Sim_AuthSession_mixed.cfg", num=3000, depth=12)
+    # (TLC's simulator evaluates the exporting invariant on every successor of the last step: ~25 behaviours per trace)
+    sims = behaviours(ctx, SPEC, "MC_AuthSession", "Sim_AuthSession.cfg", num=40 if quick else 600, depth=9)
+    mixed = [] if quick else behaviours(ctx, SPEC, "MC_AuthSession", "Sim_AuthSession_mixed.cfg", num=300, depth=12)
     probes = [(n, s, "raw") for n, s in F4_PROBES.items()] + [(n, s, "raw") for n, s in STORE_PROBES.items()]
     behs = [{"store": m, "steps": s} for _, s, m in probes]
     behs += [{"store": "raw", "steps": b["steps"]} for b in seq + sims]
